@@ -969,10 +969,15 @@ pub fn program(t: &mut Tape, o: &GenOpts) -> Generated {
         g.fuel_used += 1;
     }
     g.flush();
-    let l = g.label();
-    g.start_line(l);
-    g.cur.as_mut().unwrap().1.push(Stmt::End);
-    g.flush();
+    // without subroutines behind it the program may simply run off its last statement, whatever
+    // kind that is (ON..GOTO falling through, a false IF, NEXT, WEND, ...)
+    let implicit_end = nsubs == 0 && g.o.allow_end && g.t.chance(1, 3);
+    if !implicit_end {
+        let l = g.label();
+        g.start_line(l);
+        g.cur.as_mut().unwrap().1.push(Stmt::End);
+        g.flush();
+    }
     for i in 0..nsubs {
         g.in_sub = Some(i);
         g.budget = g.budget.max(4);
